@@ -292,3 +292,9 @@ ben('C08', P, "            if 0 <= tx <= 1:\n                xtrema.append(self.
 # ---------------------------------------------------------------- C09 R09.5 closed-form relocation
 brk('C09', P, "        t1_adj = trimmed_seg.radialrange(pt1)[0][1]", "        t1_adj = (t1 - t0)/t1", 'closed-form relocation with the wrong denominator')
 ben('C09', P, "        t1_adj = trimmed_seg.radialrange(pt1)[0][1]", "        t1_adj = (t1 - t0)/(1 - t0)", 'closed-form relocation (correct)')
+
+# ---------------------------------------------------------------- C02 R02.9 entry points
+brk('C02', 'parser.py', "    return Path(pathdef, current_pos=current_pos, tree_element=tree_element)", "    return Path(pathdef.strip().replace('m', 'M', 1) if pathdef.lstrip().startswith('m') else pathdef, current_pos=current_pos, tree_element=tree_element)", 'leading m rewritten to M before parsing')
+brk('C02', P, "                self._parse_path(segments[0], current_pos)", "                self._parse_path(segments[0], 0j)", 'start position ignored')
+brk('C02', 'parser.py', "    return Path(pathdef, current_pos=current_pos, tree_element=tree_element)", "    return Path(pathdef, tree_element=tree_element)", 'parse_path drops current_pos')
+ben('C02', 'parser.py', "    return Path(pathdef, current_pos=current_pos, tree_element=tree_element)", "    result = Path(pathdef, current_pos, tree_element=tree_element)\n    return result", 'positional current_pos')
